@@ -298,6 +298,17 @@ func runC16(c *Ctx) {
 	// blocking channel operations
 	blockingOps(c, "R16.5")
 
+	// ---------- R16.7 one context stops everything
+	c.Rule("R16.7", "E3", "the runtime runs every controller adapter and every watch on its own run context (the one cancelled on a watch failure), never on the caller's context", 3)
+
+	for _, f := range p.PkgFuncs(pkgRuntime) {
+		for _, call := range p.Calls(f, "(pkg/controller/runtime/internal/adapter.Adapter).Run", "(pkg/state.*).WatchKindAggregated", "(pkg/state.*).WatchKind", "(pkg/state.*).Watch") {
+			d := p.DescN(CallArgs(call)[1], 4)
+			ok := strings.ReplaceAll(d, "free:", "") == "*param#0.runCtx" // (captured through any number of function literals)
+			c.Check(ok, "R16.7", FuncName(f)+" :: "+p.CalleeName(call)+" runs on runtime.runCtx", call.Pos(), d, "context is "+d+": a watch failure cancels runCtx only, this goroutine / watch keeps running and Run never returns")
+		}
+	}
+
 	// ---------- R16.6 store watchers stop
 	c.Rule("R16.6", "E1", "store watch goroutines: a failed (cancelled) send or a done context ends the goroutine at every wait point", 4)
 
